@@ -198,7 +198,9 @@ WIRE_TREE = [
 ]
 TRANSFERS = ["RETR x.txt", "RETR a/x.txt", "RETR ../x.txt", "STOR n.bin", "STOR a/../n.bin", "APPE x.txt", "LIST", "LIST a", "MLSD .", "MLSD a/b/.."]
 INTERPOSED = ["CWD a", "CWD /a/b", "CDUP", "CWD /pub", "USER carl", "USER bob", "PWD", "CWD ..", "REST 2", "MKD zz", "RNFR x.txt"]
-PLAIN = ["CWD a", "CWD /a/b", "CDUP", "CWD /", "CWD pub", "MKD q/r", "MLST x.txt", "DELE n.bin", "RNFR x.txt", "RNTO x2.txt", "RMD q/r", "PWD"]
+PLAIN = ["CWD a", "CWD /a/b", "CDUP", "CWD /", "CWD pub", "MKD q/r", "MLST x.txt", "DELE n.bin", "RNFR x.txt", "RNTO x2.txt", "RMD q/r", "PWD",
+         "MLST a/../x.txt", "MKD a/../q2", "DELE /a/b/../../n2.bin", "CWD a/./b/..", "MLST ../../x.txt", "RNFR a/b/../x.txt", "MLST //a//x.txt", "RMD a/../q2"]
+PATH_VERBS = {"cwd", "mkd", "mlst", "dele", "rnfr", "rnto", "rmd", "retr", "stor", "appe", "list", "mlsd"}
 
 
 def _wire_users():
@@ -267,6 +269,14 @@ async def _wire_session(loop, plan):
         wd.users[0].base_path = pathlib.Path("ub")
         wd.users[1].base_path = pathlib.Path("uc")
         raw = await wd.raw_client()
+        # the path each permission lookup is made for
+        perm_log = []
+        for u in wd.users:
+            def spy_permissions(path, _orig=u.get_permissions):
+                perm_log.append(str(path))
+                return _orig(path)
+
+            u.get_permissions = spy_permissions
         await W.run_line(wd, raw, b"USER bob")
 
         def state():
@@ -282,18 +292,21 @@ async def _wire_session(loop, plan):
             if st is None or raw.eof:
                 break
             n0 = len(spy.log)
+            q0 = len(perm_log)
             if step[0] == "cmd":
                 await W.run_line(wd, raw, step[1].encode())
-                recs.append({"cmd": step[1], "state": st, "calls": [(n, p) for _, n, p in spy.log[n0:]], "late": False})
+                recs.append({"cmd": step[1], "state": st, "calls": [(n, p) for _, n, p in spy.log[n0:]], "late": False, "perm": perm_log[q0:]})
             else:
                 await W.run_line(wd, raw, b"EPSV")
                 st = state()
                 n0 = len(spy.log)
+                q0 = len(perm_log)
                 c0 = len(raw.replies)
                 raw.send_raw(step[1].encode() + b"\r\n")
                 await loop.settle()
                 accepted = any(c == "150" for c, _ in raw.replies[c0:])
                 n1 = len(spy.log)
+                q1 = len(perm_log)
                 inter = []
                 for line in step[2]:
                     await W.run_line(wd, raw, line.encode())
@@ -323,6 +336,7 @@ async def _wire_session(loop, plan):
                         "state": st,
                         "late": True,
                         "interposed": inter,
+                        "perm": perm_log[q0:q1],
                         "accepted": accepted,
                         "calls": [(n, p) for _, n, p in spy.log[n0:n1]],
                         "worker_calls": [(n, p) for _, n, p in spy.log[n2:]],
@@ -373,6 +387,12 @@ def wire_oracle(plan, recs):
                 bparts = pathlib.PurePosixPath(base).parts
                 if parts[: len(bparts)] != bparts or ".." in parts:
                     return {"what": "backend %s(%s) for %r is outside the base %r of the user who sent it" % (call[0], p, r["cmd"], base), "signature": "C02:wire:outside-base"}
+        verb, _, arg0 = r["cmd"].partition(" ")
+        if verb.lower() in PATH_VERBS or verb.lower() == "cdup":
+            want_v = "/" + "/".join(py_walk([x for x in cwd.split("/") if x], arg0 if verb.lower() != "cdup" else ".."))
+            for got_v in r.get("perm", []):
+                if got_v != want_v:
+                    return {"what": "%r received in cwd %r: the permission lookup was made for %r, the normalised absolute form of the location addressed is %r" % (r["cmd"], cwd, got_v, want_v), "signature": "C02:wire:permission-lookup-not-normalised"}
         if r.get("late") and r.get("accepted"):
             arg = r["cmd"].partition(" ")[2]
             cwd_parts = [x for x in cwd.split("/") if x]
